@@ -40,6 +40,11 @@ func checkZ(x, y uint64) string {
 		if !mustPanic(func() { morton.MustToZ(uint(x), uint(y)) }) {
 			return fmt.Sprintf("MustToZ(%#x, %#x) does not panic although an address does not fit in 32 bits", x, y)
 		}
+		// the address that the refused one would alias to must still be encoded correctly, also right after the refusal
+		ax, ay := x&0xFFFFFFFF, y&0xFFFFFFFF
+		if za, oka := morton.ToZ(uint(ax), uint(ay)); !oka || uint64(za) != refZ(ax, ay) {
+			return fmt.Sprintf("right after the refused ToZ(%#x, %#x): ToZ(%#x, %#x) = %#x (ok=%v), bit interleaving gives %#x", x, y, ax, ay, za, oka, refZ(ax, ay))
+		}
 		return ""
 	}
 	if !ok {
@@ -170,3 +175,42 @@ func oracleC17Bits(b BitCase) (o report.Outcome) {
 }
 
 func TestC17Bits(t *testing.T) { report.RunEnum(t, specC17Bits, enumBits, oracleC17Bits) }
+
+// the first thing a fresh process does with the package is to DECODE: nothing may depend on an earlier encode
+type ColdCase struct {
+	Z uint64 `json:"z"`
+}
+
+var specC17Cold = report.Spec{Property: "C17", Check: "C17Cold", Exhaustive: true,
+	Rule: "a fresh process whose first calls into the package are FromZ on a fixed list of 70 keys (all single bits, alternating patterns, all ones), compared with a bit-by-bit de-interleave reference; only then ToZ(FromZ(z)) == z. Non-trivial: a key with a bit at position >= 32."}
+
+func TestC17Cold(t *testing.T) {
+	report.RunEnum(t, specC17Cold, func(yield func(ColdCase) bool) {
+		keys := []uint64{0, 1, 2, 3, 0xAAAAAAAAAAAAAAAA, 0x5555555555555555, 0xFFFFFFFFFFFFFFFF, 0x00000000FFFFFFFF, 0xFFFFFFFF00000000}
+		for i := uint(0); i < 64; i++ {
+			keys = append(keys, uint64(1)<<i)
+		}
+		for _, k := range keys {
+			if !yield(ColdCase{Z: k}) {
+				return
+			}
+		}
+	}, func(c ColdCase) (o report.Outcome) {
+		var rx, ry uint64
+		for i := uint(0); i < 32; i++ {
+			rx |= ((c.Z >> (2 * i)) & 1) << i
+			ry |= ((c.Z >> (2*i + 1)) & 1) << i
+		}
+		o.Key = fmt.Sprint(c.Z)
+		o.NonTrivial = c.Z>>32 != 0
+		x, y := morton.FromZ(uint(c.Z))
+		if uint64(x) != rx || uint64(y) != ry {
+			o.Failf([]string{"morton"}, "FromZ(%#x) = (%#x, %#x) as one of the first calls of the process, de-interleaving gives (%#x, %#x)", c.Z, x, y, rx, ry)
+			return o
+		}
+		if z, ok := morton.ToZ(x, y); !ok || uint64(z) != c.Z {
+			o.Failf([]string{"morton"}, "ToZ(FromZ(%#x)) = %#x (ok=%v)", c.Z, z, ok)
+		}
+		return o
+	})
+}
